@@ -564,6 +564,13 @@ func (d *Driver) Post() tr.M {
 	if stash == nil {
 		stash = []int{}
 	}
+	stasht := []string{}
+	for _, t := range d.V.StashTypes() {
+		if !isAdmin(t) {
+			t = "D"
+		}
+		stasht = append(stasht, t)
+	}
 	sent := []interface{}{}
 	if msgs, err := st.GetMessages(1, st.NextSenderMsgSeqNum()+3); err == nil {
 		for _, b := range msgs {
@@ -589,7 +596,7 @@ func (d *Driver) Post() tr.M {
 		inbuf = d.In.Len()
 	}
 	return tr.M{"st": d.V.StateName(), "nIn": st.NextTargetMsgSeqNum(), "nOut": st.NextSenderMsgSeqNum(),
-		"stash": stash, "rrEnd": rrEnd, "rrCur": rrCur, "q": d.V.QueueLen(),
+		"stash": stash, "stasht": stasht, "rrEnd": rrEnd, "rrCur": rrCur, "q": d.V.QueueLen(),
 		"sentReset": d.V.SentReset(), "conn": d.V.Connected(), "hb": int(d.V.HeartBtInt() / time.Second),
 		"pstop": d.V.PendingStop(), "stopped": d.V.Stopped(), "ep": ep, "sent": sent, "inbuf": inbuf}
 }
